@@ -29,7 +29,7 @@ func HSkipBeforeProtected() {
 	for i := cnt - 1; i >= 0; i-- {
 		t := vr.U8()
 		vr.Assume(t >= 1 && (t <= 32 || t >= 49))
-		n := vr.IntIn(0, L)
+		n := vr.IntOf(0, 3, L) // body lengths: none, a few octets, the bound
 		body := vr.Bytes(n)
 		flags := vr.U8() & 0x7f
 		one := append([]byte{next, flags, byte((n + 4) >> 8), byte(n + 4)}, body...)
